@@ -29,7 +29,8 @@ MANIFEST = {
             'inv_reachable_dropping, stale_copy_never_visible_dropping, latest_publisher_visible_dropping (the '
             'latest publisher\'s leaf, or no leaf at all and then a causal ancestor dropped it), and '
             'drop_after_two_generations_fails (without DropsLow the statement is FALSE of the code: a variant of '
-            'known finding G, replayed on the real functions by the hist stream). Ties: stream '
+            'known finding G, replayed on the real functions by the hist stream), dropsLow_from_dag and '
+            'stale_copy_never_visible_dag (the same with hypotheses on the history alone). Ties: stream '
             'ctx = the REAL functions on generated publish histories over fork/join DAGs, every inbound context in '
             'ALL row orders (joins <=4 parents) vs the model; stream hist = the Lean run of the WHOLE history vs '
             'the real inbound/outbound context of every task + the theorems\' hypothesis StableHist evaluated by '
@@ -50,8 +51,9 @@ MANIFEST = {
             'data-flow model run (Mistral.Hist), which is tied to the real functions per history (stream hist) and '
             'to the engine per task execution (stream flow), not to the engine model L5. DropsLow is a condition on the '
             'model run (inbound version of the dropping task <= 1), evaluated by Lean and read off the real '
-            'contexts by the hist stream; the purely graph-theoretic form (no two publishers of the leaf, one '
-            'following the other, above a dropping task) is used by the monitor but not proved equivalent.',
+            'contexts by the hist stream; dropsLow_from_dag proves it from a condition on the DAG alone (no two publishers '
+            'of the leaf, one following the other, above a dropping task: the version of a path counts generations of '
+            'its publishers, Lemmas/HistChain), which is also what the monitor uses to delimit finding G.',
 }
 RULE = ('stream ctx: generated publish histories over fork/join DAGs (50% random DAGs with several roots, scalar / '
         'list / nested dict values, leaf values unique per publisher, parents listed in random order; 28% motif '
